@@ -87,7 +87,7 @@ func c07Delete(c *Ctx, m *Module) {
 		n++
 		fn := cs.Parent()
 		facts := factsAt(cs)
-		site := fmt.Sprintf("%s/deleteFiles#%d", short(fn.Name()), n)
+		site := fmt.Sprintf("%s/deleteFiles#%d", short(refName(fn)), n)
 		evidence := ""
 		// (1) notNeeded(expiry, *todo) true
 		if hasFact(facts, callResultIs("internal/upload.notNeeded", true, nil)) {
